@@ -308,3 +308,21 @@ Qed.
 Example nlri_roundtrip_example :
   wf_nlri (NLab6 [100; 3] 1 128) /\ net_from_api toy_r (nlri_to_api toy_p (NLab6 [100; 3] 1 128)) = Some (NLab6 [100; 3] 1 128).
 Proof. split; [|vm_compute; reflexivity]. cbn. repeat split; try lia; try discriminate. repeat constructor; lia. Qed.
+
+(* ------------------------------------------------------------------ *)
+(* GrpcService::local_path                                               *)
+Theorem C17_local_path_accepts_wf :
+  forall v6r fam n xs family net attrs nh,
+    v6_range v6r -> Forall api_in_range xs ->
+    local_path v6r fam n xs = Some (family, net, attrs, nh) ->
+    wf_nlri net /\ Forall wf_attr attrs
+    /\ existsb (fun a => a_code a =? ORIGIN) attrs = true
+    /\ existsb (fun a => a_code a =? AS_PATH) attrs = true.
+Proof. exact local_path_wf. Qed.
+
+Example local_path_example :
+  local_path v6_parse None (PPrefix [49; 48; 46; 48; 46; 48; 46; 48] 8)
+             [ANextHop [49; 46; 50; 46; 51; 46; 52]; ALocalPref 200; AOriginatorId [49; 46; 49; 46; 49; 46; 49]]
+  = Some (65537, NV4 167772160 8,
+          [mkAttr 5 64 (DVal 200); mkAttr 1 64 (DVal 0); mkAttr 2 64 (DBin [])], Some [1; 2; 3; 4]).
+Proof. vm_compute. reflexivity. Qed.
